@@ -314,6 +314,7 @@ class Fn:
         self.src = None
         self.region_ret = False
         self.names = {}
+        self.loop_tmps = {}
 
 
 class Lowerer:
@@ -720,6 +721,9 @@ class Lowerer:
         btxt = btxt[:i + 1] + '\n' + pre + btxt[i + 1:]
         guards = ''.join('#ifndef LOOPSPEC_%s_%d\n#define LOOPSPEC_%s_%d\n#endif\n' % (f.cname, k, f.cname, k)
                          for k in range(f.loops))
+        for k in range(f.loops):
+            tl = f.loop_tmps.get(k, [])
+            guards += '#define LOOPTMPS_%s_%d %s\n' % (f.cname, k, ''.join(', ' + t for t in tl))
         guards += '#ifndef FNSPEC_%s\n#define FNSPEC_%s\n#endif\n' % (f.cname, f.cname)
         guards += '#ifndef CANARYSPEC_%s\n#define CANARYSPEC_%s\n#endif\n' % (f.cname, f.cname)
         fl, ln = node_line(n)
@@ -853,24 +857,11 @@ class Lowerer:
             f.loops += 1
             spec = 'LOOPSPEC_%s_%d' % (f.cname, lid)
             inner = n.get('inner', [])
-            if k == 'WhileStmt':
-                inner = [c for c in inner if c]
-                cond, body = inner[-2], inner[-1]
-                return self.line(n) + I + 'while (%s)\n%s%s\n' % (self.expr(cond), I + spec, '\n' + self.block(body, d))
-            if k == 'DoStmt':
-                body, cond = inner[0], inner[1]
-                return self.line(n) + I + 'do\n%s%s\n%s%swhile (%s);\n' % (I, spec, self.block(body, d), I, self.expr(cond))
-            init, condvar, cond, inc, body = (inner + [None] * 5)[:5]
-            s = I + '{\n'
-            if init and init.get('kind'):
-                s += self.stmt(init, d + 1) if init['kind'] == 'DeclStmt' else self.ind(d + 1) + self.expr(init) + ';\n'
-            if condvar and condvar.get('kind'):
-                raise Unsupported('for with condition variable')
-            c = self.expr(cond) if cond and cond.get('kind') else '1'
-            i = self.expr(inc) if inc and inc.get('kind') else ''
-            s += self.line(n) + self.ind(d + 1) + 'for (; %s; %s)\n%s%s\n%s' % (c, i, self.ind(d + 1), spec, self.block(body, d + 1))
-            s += I + '}\n'
-            return s
+            t0 = len(f.tmps)
+            try:
+                return self.loop_stmt(n, k, d, I, f, lid, spec, inner)
+            finally:
+                f.loop_tmps[lid] = ['__tmp%d' % x for x in range(t0, len(f.tmps))]
         if k == 'CXXForRangeStmt':
             return self.range_for(n, d)
         if k == 'BreakStmt':
@@ -905,6 +896,27 @@ class Lowerer:
         if txt is None:
             return ''
         return self.line(n) + I + txt + ';\n'
+
+    def loop_stmt(self, n, k, d, I, f, lid, spec, inner):
+        if True:
+            if k == 'WhileStmt':
+                inner = [c for c in inner if c]
+                cond, body = inner[-2], inner[-1]
+                return self.line(n) + I + 'while (%s)\n%s%s\n' % (self.expr(cond), I + spec, '\n' + self.block(body, d))
+            if k == 'DoStmt':
+                body, cond = inner[0], inner[1]
+                return self.line(n) + I + 'do\n%s%s\n%s%swhile (%s);\n' % (I, spec, self.block(body, d), I, self.expr(cond))
+            init, condvar, cond, inc, body = (inner + [None] * 5)[:5]
+            s = I + '{\n'
+            if init and init.get('kind'):
+                s += self.stmt(init, d + 1) if init['kind'] == 'DeclStmt' else self.ind(d + 1) + self.expr(init) + ';\n'
+            if condvar and condvar.get('kind'):
+                raise Unsupported('for with condition variable')
+            c = self.expr(cond) if cond and cond.get('kind') else '1'
+            i = self.expr(inc) if inc and inc.get('kind') else ''
+            s += self.line(n) + self.ind(d + 1) + 'for (; %s; %s)\n%s%s\n%s' % (c, i, self.ind(d + 1), spec, self.block(body, d + 1))
+            s += I + '}\n'
+            return s
 
     DROPPABLE = ('std::map<', 'std::unordered_map<', 'std::shared_ptr<', 'std::function<', 'std::basic_ostream',
                  'tbb::', 'std::mutex', 'std::basic_string')
@@ -1080,7 +1092,9 @@ class Lowerer:
         if e.get('kind') == 'CXXConstructExpr' and not e.get('inner') and t.kind == 'rec':
             # default construction
             ctor = self.ctor_decl_of(e, t)
-            if ctor is None:
+            if ctor is None and t.key.startswith('std::'):
+                return ln + I + '%s = {0};\n' % self.cdecl(t, name)
+            if ctor is None and not self.has_dmi(t):
                 self.note('trivial default construction of %s left uninitialised (as in C++) at %s' % (t.name, where(c)))
                 return ln + I + self.cdecl(t, name) + ';\n'
         return ln + I + static + '%s = %s;\n' % (self.cdecl(t, name), self.expr(init))
@@ -1344,6 +1358,14 @@ class Lowerer:
     def e_ImplicitCastExpr(self, e):
         ck = e.get('castKind')
         sub = e['inner'][0]
+        if ck == 'LValueToRValue':
+            inv = self.elem_inv_of(sub)
+            if inv:
+                f = self.cur
+                t = self.ty(e['type']).noref()
+                name = '__tmp%d' % len(f.tmps)
+                f.tmps.append(self.cdecl(t, name))
+                return '(%s = %s, __CPROVER_assume(%s(%s)), %s)' % (name, self.expr(sub), inv, name, name)
         if ck in ('LValueToRValue', 'NoOp', 'FunctionToPointerDecay', 'ArrayToPointerDecay',
                   'ConstructorConversion', 'UserDefinedConversion'):
             return self.expr(sub)
@@ -1397,9 +1419,33 @@ class Lowerer:
     e_CXXConstCastExpr = explicit_cast
 
     # -- operators
+    def elem_inv_of(self, e):
+        """name of the element-invariant macro if e is v[i] on a local container the spec gives an invariant for"""
+        tab = self.spec.get('element_invariants', {}).get(self.cur.cname if self.cur else '', {})
+        if not tab:
+            return None
+        s = self.strip(e)
+        if s.get('kind') != 'CXXOperatorCallExpr' or len(s.get('inner', [])) < 3:
+            return None
+        base = self.strip(s['inner'][1])
+        while base.get('kind') == 'ImplicitCastExpr':
+            base = base['inner'][0]
+        if base.get('kind') == 'DeclRefExpr' and base['referencedDecl'].get('name') in tab:
+            return tab[base['referencedDecl']['name']]
+        return None
+
     def e_BinaryOperator(self, e):
         a, b = e['inner']
         op = e['opcode']
+        inv = self.elem_inv_of(a) if op == '=' else None
+        if inv:
+            f = self.cur
+            t = self.ty(a['type']).noref()
+            name = '__tmp%d' % len(f.tmps)
+            f.tmps.append(self.cdecl(t, name))
+            self.note('element invariant %s: asserted on every write, assumed on every read of the container (type-refinement contract)' % inv)
+            return '(%s = %s, __CPROVER_assert(%s(%s), "element invariant %s preserved by this write"), %s = %s)' % (
+                name, self.expr(b), inv, name, inv, self.expr(a), name)
         if op == ',':
             return '(%s, %s)' % (self.expr(a), self.expr(b))
         if op == '=' and self.ty(e['type']).kind == 'arr':
@@ -1661,6 +1707,10 @@ class Lowerer:
         a = self.args_for(ctor, args)
         return '%s(%s)' % (f.cname, ', '.join(a))
     e_CXXTemporaryObjectExpr = e_CXXConstructExpr
+
+    def has_dmi(self, t):
+        rec = self.idx.records.get(t.key)
+        return bool(rec) and any(c.get('kind') == 'FieldDecl' and c.get('hasInClassInitializer') for c in rec.get('inner', []))
 
     def default_construct(self, t, e):
         rec = self.idx.records.get(t.key)
